@@ -35,9 +35,15 @@ MPk(retry, sgs) == [m |-> PK, retry |-> retry, signers |-> sgs, cred |-> ""]
 MCConfigs ==
   [n \in {"pw", "kbd", "pw_kbd", "rpw2_kbd", "rkbd0_pw", "pk_ed", "pk_rsa_pw", "pk_alg_edcert", "pk_cert_ed_pw",
           "kbd_pk3", "rpk2_pw", "pk_pk", "pk_2entries", "pk_certalg_pl", "pk_pref", "o1", "o1cert",
-          "long_pw", "long_rpw2_kbd"} |->
+          "long_pw", "long_rpw2_kbd", "f_pk_pw", "f_pk2_pw", "f_pk_pk_pw", "f_rpk2_pw", "f_rpw2_pk", "f_kbd_pk2"} |->
      CASE n = "pw" -> <<M(PW, -1)>>
        [] n = "kbd" -> <<M(KBD, -1)>>
+       [] n = "f_pk_pw" -> <<MPk(-1, <<SEd1>>), M(PW, -1)>>
+       [] n = "f_pk2_pw" -> <<MPk(-1, <<SRsa1, SEd1>>), M(PW, -1)>>
+       [] n = "f_pk_pk_pw" -> <<MPk(-1, <<SEd1>>), MPk(-1, <<SRsa1>>), M(PW, -1)>>
+       [] n = "f_rpk2_pw" -> <<MPk(2, <<SEd1, SRsa2Old>>), M(PW, -1)>>
+       [] n = "f_rpw2_pk" -> <<M(PW, 2), MPk(-1, <<SEd2>>)>>
+       [] n = "f_kbd_pk2" -> <<M(KBD, -1), MPk(-1, <<SEd1, SCert1>>)>>
        [] n = "long_pw" -> <<M(PW, -1)>>
        [] n = "long_rpw2_kbd" -> <<M(PW, 2), M(KBD, -1)>>
        [] n = "pw_kbd" -> <<M(PW, -1), M(KBD, -1)>>
@@ -132,8 +138,11 @@ NamesO1    == {"o1", "o1cert"}
 NamesLong  == {"long_pw", "long_rpw2_kbd"}
 NamesLong1 == {"long_pw"}
 NamesQuick == {"pw_kbd", "rpw2_kbd", "pk_rsa_pw", "pk_cert_ed_pw", "kbd_pk3", "rpk2_pw", "pk_pref", "pk_certalg_pl", "o1", "o1cert"}
-NamesQuickAll == NamesQuick \cup NamesLong1 \cup NamesGrid
-NamesThorough == NamesAll \cup NamesO1 \cup NamesLong
+NamesFocus == {"f_pk_pw", "f_pk2_pw", "f_pk_pk_pw", "f_rpk2_pw", "f_rpw2_pk", "f_kbd_pk2"}
+NamesFocusRetry == {"f_rpk2_pw"}
+NamesRetryPk == {"rpk2_pw", "f_rpk2_pw"}
+NamesQuickAll == NamesQuick \cup NamesLong1 \cup NamesGrid \cup NamesFocus
+NamesThorough == NamesAll \cup NamesO1 \cup NamesLong \cup NamesFocus
 NamesNoLong == NamesAll \cup NamesO1
 NoNames == {}
 NamesBound == {"pw", "pw_kbd", "pk_cert_ed_pw", "pk_2entries"}
@@ -198,5 +207,9 @@ ItemsSmall == {It("fail[" \o Join(l) \o "]", <<PFail(l, FALSE)>>) : l \in {<<PK,
 ItemsLong == {It("partial[" \o Join(<<PW, KBD>>) \o "]", <<PFail(<<PW, KBD>>, TRUE)>>), It("inforeq1", <<PInfo(1)>>)}
 ItemsLong1 == {It("partial[" \o Join(<<PW>>) \o "]", <<PFail(<<PW>>, TRUE)>>)}
 PreLong == {It("accept", <<PAccept>>)}
+\* focus group: method lists that change between consecutive failures inside one AuthMethod's run
+ItemsFocus == {It("fail[" \o Join(l) \o "]", <<PFail(l, FALSE)>>) : l \in {<<PK, PW>>, <<PK>>, <<KBD, PK>>, <<PW>>}}
+                \cup {It("pkok same/same", <<PPkok("@same", "@same")>>), It("success", <<PSucc>>)}
+PreFocus == {It("accept", <<PAccept>>)}
 
 =============================================================================
